@@ -297,6 +297,7 @@ class Tr:
         self.orch, self.cls, self.methods, self.meta = orch, cls, dict(methods or {}), dict(meta or {})
         self.self_name = fn.args.args[0].arg if (orch and cls is not None and fn.args.args) else None
         self.mutates_self, self.mutates_params = False, set()
+        self.block_helpers = set()
         self.helpers = {s.name: s for s in fn.body if isinstance(s, ast.FunctionDef)}
         # helpers that are to be externals although they could be inlined (string parsing, …): given as
         # (name, position among the nested defs); found by name, or - after a renaming - by position
@@ -309,6 +310,25 @@ class Tr:
                 self.forced_opaque.add(order[k])
             else:
                 raise TranslationError(f"{fn.name}: no nested helper `{name}` / #{k}")
+        if orch:
+            # phase 6, round 2: a def inside a block (`elif …: def _permute(x): …`) is a helper, too, but only an INLINABLE
+            # one (never opaque / a closure value); its name must be defined once and not be rebound
+            def nested(stmts):
+                for st in stmts:
+                    if isinstance(st, ast.FunctionDef):
+                        yield st
+                    elif isinstance(st, (ast.If, ast.For, ast.While, ast.With, ast.Try)):
+                        for fld in ("body", "orelse", "finalbody"):
+                            yield from nested(getattr(st, fld, []))
+                        for h in getattr(st, "handlers", []):
+                            yield from nested(h.body)
+            for st in fn.body:
+                if not isinstance(st, ast.FunctionDef):
+                    for d in nested([st]):
+                        if d.name in self.helpers:
+                            raise TranslationError(f"nested def `{d.name}` defined twice")
+                        self.helpers[d.name] = d
+                        self.block_helpers.add(d.name)
         self.fresh = 0
         # every name bound somewhere in the function: parameters (also of nested defs / lambdas), assignment / loop /
         # comprehension targets.  Any other name that is used as a value is a module-level one.
@@ -552,6 +572,8 @@ class Tr:
                 raise TranslationError(f"helper {h.name} is outside the subset and reads the enclosing variable {n.id}")
             if isinstance(n, (ast.Nonlocal, ast.Global, ast.Yield, ast.YieldFrom)):
                 raise TranslationError(f"helper {h.name}: nonlocal / global / yield")
+        if h.name in self.block_helpers:
+            raise TranslationError(f"helper {h.name} (defined inside a block) cannot be inlined")
         k = [s.name for s in self.fn.body if isinstance(s, ast.FunctionDef)].index(h.name)
         return ("ext", f"helper#{k}", [self.expr(a, sub) for a in args])
 
@@ -566,6 +588,8 @@ class Tr:
                 raise TranslationError(f"nested def {h.name} is used as a value and reads the enclosing variable {n.id}")
             if isinstance(n, (ast.Nonlocal, ast.Global, ast.Yield, ast.YieldFrom)):
                 raise TranslationError(f"nested def {h.name}: nonlocal / global / yield")
+        if h.name in self.block_helpers:
+            raise TranslationError(f"nested def {h.name} (defined inside a block) used as a value")
         k = [s.name for s in self.fn.body if isinstance(s, ast.FunctionDef)].index(h.name)
         return ("ext", f"closure#{k}", [])
 
@@ -1160,7 +1184,14 @@ class Tr:
                 [u.id for u in tg.elts if isinstance(u, ast.Name)] if isinstance(tg, ast.Tuple) else []
             if isinstance(tg, ast.Attribute) and isinstance(tg.value, ast.Name):
                 x = tg.value.id
-                pre, v = self.hoist(s.value)
+                bh = self.block_helper(s.value)
+                if bh and not bh[2]:
+                    # `x.attr = h(…)` for a nested multi-statement helper: inlined through a temporary
+                    t = self.tmp()
+                    self.bound.add(t)
+                    pre, v = self.inline_block(bh[0], bh[1], t), ast.Name(id=t, ctx=ast.Load())
+                else:
+                    pre, v = self.hoist(s.value)
                 if x == self.self_name:
                     self.mutates_self = True
                 elif x in [a.arg for a in self.fn.args.args]:
